@@ -8,7 +8,7 @@ From Verif.Gen Require Import Entities Tokenizer.
 From Verif.Model Require Import CharRef TokBase TokHand C02.
 From Verif.Spec Require Import CharRef TokSpec.
 From Verif.Proofs Require Import C02a C02b C02dict C08 C02sim C02simtac.
-From Verif.Proofs Require Import C02sim_a C02sim_adn C02sim_b C02sim_bogus C02sim_c C02sim_d C02sim_e C02sim_f C02sim_g C02sim_h C02sim_i C02sim_j C02sim_mdo.
+From Verif.Proofs Require Import C02sim_amp C02sim_a C02sim_adn C02sim_b C02sim_bogus C02sim_c C02sim_d C02sim_e C02sim_f C02sim_g C02sim_h C02sim_i C02sim_j C02sim_mdo.
 Import ListNotations.
 Local Open Scope N_scope.
 
@@ -17,10 +17,20 @@ Create HintDb simlem.
 
 Lemma sim_step m s : R m s -> wk m = true -> covered m = true -> simok s (step m).
 Proof.
-  intros HR Hwk Hcov. unfold step.
-  destruct (st m) eqn:Hst;
-    first [ solve [unfold covered in Hcov; rewrite Hst in Hcov; discriminate Hcov]
-          | solve [auto with simlem] ].
+  intros HR Hwk Hcov. destruct (plain m) eqn:Hp.
+  - unfold step. destruct (st m) eqn:Hst;
+      first [ solve [unfold plain in Hp; rewrite Hst in Hp; discriminate Hp] | solve [auto with simlem] ].
+  - unfold step. unfold plain in Hp. unfold covered in Hcov.
+    destruct (st m) eqn:Hst; try discriminate Hp; try discriminate Hcov;
+      try (apply negb_false_iff in Hp);
+      first [ apply sim_entityDataState_ref; assumption
+            | apply sim_characterReferenceInRcdata_ref; assumption
+            | apply sim_dataState_amp; assumption
+            | apply sim_rcdataState_amp; assumption
+            | apply sim_beforeAttributeValueState_amp; assumption
+            | apply sim_attributeValueDoubleQuotedState_amp; assumption
+            | apply sim_attributeValueSingleQuotedState_amp; assumption
+            | apply sim_attributeValueUnQuotedState_amp; assumption ].
 Qed.
 
 (* run_loop restricted to covered configurations *)
@@ -50,7 +60,7 @@ Proof.
   induction n as [|n IH]; intros m s mf HR Hwk Hrun; [discriminate Hrun|].
   cbn [run_cov] in Hrun. destruct (covered m) eqn:Hcov; [|discriminate Hrun].
   pose proof (sim_step m s HR Hwk Hcov) as Hsim. unfold simok in Hsim.
-  destruct (step m) as [m' c]. cbn [fst snd] in Hsim. destruct Hsim as (_ & Hwk' & Hsim).
+  destruct (step m) as [m' c]. cbn [fst snd] in Hsim. destruct Hsim as (_ & Hwk' & _ & _ & Hsim).
   destruct c.
   - destruct Hsim as (j & s' & Hj & HR').
     destruct (IH m' s' mf HR' Hwk' Hrun) as (n' & sf & Hn & HRf & Hwf).
@@ -84,11 +94,49 @@ Theorem tokenizer_refines_whatwg : forall s0 t cd i n mf,
   run_loop n (init_tk s0 CNone t cd i) = Some mf /\
   exists n' sf, sp_run n' (init_tk s0 CNone t cd i) = Some sf /\
                 (forall n'' sf', sp_run n'' (init_tk s0 CNone t cd i) = Some sf' -> sf' = sf) /\
-                rev (out sf) = flat (rev (out mf)) /\ inp sf = inp mf /\ st sf = st mf.
+                rev (out sf) = flat (rev (out mf)) /\ inp sf = sinp mf /\ st sf = sst mf.
 Proof.
   intros s0 t cd i n mf Hs Hrun. split; [apply run_cov_is_run_loop; exact Hrun|].
   destruct (R_init s0 t cd i Hs) as [HR Hwk].
   destruct (refinement n _ _ mf HR Hwk Hrun) as (n' & sf & Hn & HRf & _).
   exists n', sf. split; [exact Hn|]. split; [intros n'' sf' H'; exact (sp_run_det _ _ _ _ _ H' Hn)|].
+  destruct HRf as (Hst & Hi & _ & Ho & _). split; [rewrite Ho; apply flatr_rev|]. split; assumption.
+Qed.
+
+(* ---- without CDATA sections allowed, EVERY run is covered ---- *)
+Theorem refinement_no_cdata : forall n m s mf,
+  R m s -> wk m = true -> covered m = true -> cdata_ok m = false -> run_loop n m = Some mf ->
+  exists n' sf, sp_run n' s = Some sf /\ R mf sf.
+Proof.
+  induction n as [|n IH]; intros m s mf HR Hwk Hcov Hcd Hrun; [discriminate Hrun|].
+  cbn [run_loop] in Hrun.
+  pose proof (sim_step m s HR Hwk Hcov) as Hsim. unfold simok in Hsim.
+  assert (Hscd : cdata_ok s = false) by (destruct HR as (_ & _ & _ & _ & Hx & _); congruence).
+  destruct (step m) as [m' c]. cbn [fst snd] in Hsim. destruct Hsim as (_ & Hwk' & Hcd' & Hcv' & Hsim).
+  assert (Hcov' : covered m' = true) by (destruct (covered m'); [reflexivity | specialize (Hcv' eq_refl); congruence]).
+  destruct c.
+  - destruct Hsim as (j & s' & Hj & HR').
+    destruct (IH m' s' mf HR' Hwk' Hcov' ltac:(congruence) Hrun) as (n' & sf & Hn & HRf).
+    exists (j + n')%nat, sf. split; [|assumption]. rewrite (sp_iter_run j n' s s' Hj). exact Hn.
+  - destruct Hsim as (s' & Hs & HR'). inversion Hrun; subst mf.
+    exists 1%nat, s'. split; [|assumption]. cbn [sp_run]. rewrite Hs. reflexivity.
+Qed.
+
+Theorem tokenizer_equals_whatwg_no_cdata : forall s0 t i,
+  start_state s0 = true ->
+  exists mf n' sf,
+    tokenize s0 CNone t false i = Some mf /\
+    sp_run n' (init_tk s0 CNone t false i) = Some sf /\
+    (forall n'' sf', sp_run n'' (init_tk s0 CNone t false i) = Some sf' -> sf' = sf) /\
+    rev (out sf) = flat (rev (out mf)) /\ inp sf = sinp mf /\ st sf = sst mf.
+Proof.
+  intros s0 t i Hs.
+  destruct (tokenize s0 CNone t false i) as [mf|] eqn:Et; [|exfalso; exact (tokenize_total _ _ _ _ _ Et)].
+  destruct (R_init s0 t false i Hs) as [HR Hwk].
+  assert (Hcov : covered (init_tk s0 CNone t false i) = true) by (destruct s0; try discriminate Hs; reflexivity).
+  unfold tokenize in Et.
+  destruct (refinement_no_cdata _ _ _ mf HR Hwk Hcov eq_refl Et) as (n' & sf & Hn & HRf).
+  exists mf, n', sf. split; [reflexivity|]. split; [exact Hn|].
+  split; [intros n'' sf' H'; exact (sp_run_det _ _ _ _ _ H' Hn)|].
   destruct HRf as (Hst & Hi & _ & Ho & _). split; [rewrite Ho; apply flatr_rev|]. split; assumption.
 Qed.
